@@ -205,6 +205,43 @@ fn k_npy_f64_le_roundtrip() {
 }
 
 
+// ------------------------------------------------------------------ read_array after the header (C16)
+/// ASSUMED result of `Header::read` (nom parser / str::from_utf8 do not finish under CBMC): a version 1.0 header
+/// declaring `<f8`, C order, shape (2,), consuming nothing from the value stream handed to the harness
+fn stub_header_read_f8_shape2<R: io::BufRead>(_reader: &mut R) -> io::Result<Header> {
+    Ok(Header::new(Version::V1, HeaderDict::new(TypeDescriptor::new(Endian::Little, Type::F8), false, vec![2])))
+}
+
+/// what follows the header must be exactly prod(shape) whole values: one value too few, one whole value too many
+/// and a partial trailing value are all rejected; exactly two values give the array [v0, v1] bit for bit
+fn read_array_after_header<const N: usize>() {
+    let bytes: [u8; N] = kani::any();
+    let mut reader = &bytes[..];
+    let r = super::super::read_array(&mut reader);
+    if N == 16 {
+        assert!(r.is_ok(), "exactly prod(shape) values are accepted");
+        let a = r.unwrap();
+        assert!(a.shape().len() == 1 && a.shape()[0] == 2 && a.elements() == 2, "declared shape");
+        let v = a.as_slice();
+        assert!(v[0].to_bits() == assemble(&bytes[0..8], false) && v[1].to_bits() == assemble(&bytes[8..16], false), "values bit-identical, in order");
+    } else {
+        assert!(r.is_err(), "a value section that is not exactly prod(shape) whole values is rejected");
+    }
+    kani::cover!(true);
+}
+
+/// exactly prod(shape) values after the header: accepted, with the declared shape and the values bit for bit (C07, C16).
+/// The rejecting cases (8, 20, 24 bytes) were measured and dropped: every error path of read_array builds an
+/// `io::Error::new(kind, &str)` (boxed dyn Error), on which cbmc exceeded 10 GB; `std::io::Error::new` cannot be named in
+/// `kani::stub` here. They stay decided piecewise: partial values by k_npy_decode_partial_value_is_error, a value count
+/// different from prod(shape) by the Array::new harnesses (K-index).
+#[kani::proof]
+#[kani::unwind(10)]
+#[kani::stub(Header::read, stub_header_read_f8_shape2)]
+fn k_npy_read_array_exact() {
+    read_array_after_header::<16>();
+}
+
 // (whole-file harnesses -- concrete files through Header::read / the nom parser / str::from_utf8 -- and the
 // HeaderDict Display text harness were dropped: none finished within 1200 s under CBMC; see DESIGN.md section 10)
 
